@@ -239,7 +239,7 @@ def c04_trees(rng, tier):
             out.append((g, inp, ["tree"]))
     return out
 
-C01_CTORS = CORE + ["CollectOrNot"] * 2
+C01_CTORS = CORE + ["CollectOrNot"] * 2 + ["AnyRef", "SelectRef"]
 C02_CTORS = ["Any", "Just", "OneOf", "NoneOf", "Then", "Or", "Map", "Filter", "OrNot", "To"] + ITER * 3 + ["MapWith", "ToSlice", "WithCtx", "IgnoreWithCtx", "JustCfg"] + ["CollectOrNot", "RepUnitCfg", "IntoIter", "IntoIter"]
 
 PLAIN_KINDS = ("str", "slice", "array", "stream", "bstream", "mapspan", "withctx", "bytes", "io", "graphemes", "gslice")
@@ -322,7 +322,7 @@ SPECS = {
     "C06": Spec("C06", CORE + ITER + ["TryMapWith"] * 2 + ["CollectOrNot"], obs_last, ekinds=("rich", "simple", "cheap", "empty"), no_not=True, extra=span_wf_oracle,
                 nontrivial=lambda g, inp: has_head(g, BACKTRACK),
                 rule="C01/C02 grammars without `not`, all four error types on every case; non-trivial = a backtracking site present"),
-    "C07": Spec("C07", CORE + SPANS * 4 + ITER + ["Padded"], obs_vv, ekinds=("rich",), ikinds=("str", "slice", "mapped", "mappedstream", "iter"),
+    "C07": Spec("C07", CORE + SPANS * 4 + ITER + ["Padded"] + ["AnyRef", "SelectRef"] * 2, obs_vv, ekinds=("rich",), ikinds=("str", "slice", "mapped", "mappedstream", "iter"),
                 nontrivial=lambda g, inp: len(inp) > 0 and has_head(g, {"MapWith", "ToSpan", "ToSlice", "TryMapWith", "FoldlWith", "FoldrWith", "IMapWith"}),
                 rule="C01/C02 grammars with span / slice captures; multi-byte characters in the alphabet; "
                      "non-trivial = a capture node present and non-empty input"),
@@ -337,7 +337,7 @@ SPECS = {
                 rule="operator tables of 1..6 operators over 6 symbols and 4 binding powers (same symbol may be prefix, postfix and infix), tuple and Vec "
                      "tables, optionally followed by a trailing token; inputs sampled as operand (op operand)* with prefix/postfix, mutated/truncated/extended; "
                      "observable: the fully structured tree with the span given to every fold; non-trivial = input of >= 3 tokens"),
-    "C10": Spec("C10", [c for c in CORE + ITER + RECOVER if c not in ("ToSlice",)], obs_full, sem_obs=obs_vv_emis_last, ekinds=("rich",),
+    "C10": Spec("C10", [c for c in CORE + ITER + RECOVER if c not in ("ToSlice",)] + ["AnyRef", "SelectRef"], obs_full, sem_obs=obs_vv_emis_last, ekinds=("rich",),
                 ikinds=ALL_KINDS, modes=("parse",), slices=False, n_quick=350, n_thorough=4000, cross=c10_cross,
                 nontrivial=lambda g, inp: len(inp) > 0 and has_head(g, BACKTRACK),
                 rule="C01/C02/C08 grammars (without slice captures), every (grammar, input) through all 12 input kinds side by side: &str, &[T], &[T;N], "
@@ -373,7 +373,7 @@ SPECS = {
     "C17": Spec("C17", CORE + ITER + DECOR * 6, obs_full, sem_obs=obs_vv_emis, ekinds=("rich",),
                 nontrivial=lambda g, inp: has_head(g, set(DECOR)),
                 rule="C01/C02 grammars with labelled / as_context / map_err at random nodes, Rich errors; non-trivial = a decoration present"),
-    "C18": Spec("C18", CORE + ITER + RECOVER + ["MapWith"] * 6 + ["FoldlWith", "FoldrWith"] + ["Skip"] * 2 + ["WithState"] * 3 + ["Padded"] * 4, obs_vv, ekinds=("rich",), ikinds=("str", "slice"),
+    "C18": Spec("C18", CORE + ITER + RECOVER + ["MapWith"] * 6 + ["FoldlWith", "FoldrWith"] + ["Skip"] * 2 + ["WithState"] * 3 + ["Padded"] * 4 + ["AnyRef", "SelectRef"] * 2, obs_vv, ekinds=("rich",), ikinds=("str", "slice"),
                 nontrivial=lambda g, inp: len(inp) > 0 and has_head(g, {"MapWith", "FoldlWith", "FoldrWith", "IMapWith"}),
                 rule="C01/C02/C08 grammars with state-observing map_with / foldl_with / foldr_with at random nodes (the inspector "
                      "hashes every token and snapshots on save), tokens also consumed through InputRef::skip in custom parsers, with_state(seed) at random nodes "
